@@ -29,6 +29,18 @@ type World struct {
 	tok    byte
 }
 
+// NewWorld preallocates the event log (nothing in this package grows a shared slice through the runtime).
+//
+//go:norace
+func NewWorld() *World { return &World{Events: make([]NetEvent, 0, 4096)} }
+
+//go:norace
+func (w *World) addEvent(e NetEvent) {
+	if len(w.Events) < cap(w.Events) {
+		w.Events = append(w.Events, e)
+	}
+}
+
 //go:norace
 func (w *World) tick() int { w.seq++; return w.seq }
 
@@ -42,7 +54,7 @@ func (w *World) Seq() int { return w.seq }
 //go:norace
 func (w *World) Mark(kind string) int {
 	n := w.tick()
-	w.Events = append(w.Events, NetEvent{Seq: n, Kind: kind})
+	w.addEvent(NetEvent{Seq: n, Kind: kind})
 	return n
 }
 
@@ -61,7 +73,9 @@ type connItem struct {
 type Conn struct {
 	W        *World
 	ID       int
-	queue    []connItem
+	qarr     [128]connItem
+	qhead    int
+	qlen     int
 	closed   bool
 	out      []byte
 	remote   net.Addr
@@ -77,19 +91,21 @@ type Conn struct {
 //
 //go:norace
 func (w *World) NewConn(id int, remote net.Addr) *Conn {
-	return &Conn{W: w, ID: id, remote: remote}
+	return &Conn{W: w, ID: id, remote: remote, Log: make([]NetEvent, 0, 2048), out: make([]byte, 0, 4096)}
 }
 
 //go:norace
 func (c *Conn) log(kind string, n int, err string, t time.Time, armed bool) {
 	e := NetEvent{Seq: c.W.tick(), Kind: kind, N: n, Err: err, T: t, Armed: armed}
-	c.Log = append(c.Log, e)
+	if len(c.Log) < cap(c.Log) {
+		c.Log = append(c.Log, e)
+	}
 }
 
 type readOp struct{ c *Conn }
 
 //go:norace
-func (o *readOp) enabled() bool { return len(o.c.queue) > 0 || o.c.closed }
+func (o *readOp) enabled() bool { return o.c.qlen > 0 || o.c.closed }
 
 //go:norace
 func (o *readOp) name() string { return fmt.Sprintf("Conn%d.Read", o.c.ID) }
@@ -102,37 +118,68 @@ func (c *Conn) Read(p []byte) (int, error) {
 	if s != nil && s.aborting {
 		return 0, io.EOF
 	}
-	armed := c.armed && !c.deadline.IsZero() && c.deadline.After(Now())
+	// a deadline persists until it is changed, like on a real connection; "armed" = the last deadline set was
+	// finite and lay in the future when it was set
+	armed := c.armed
+	if !c.deadline.IsZero() && !c.deadline.After(Now()) && !c.closed {
+		// the deadline has already expired: the read fails at once, as on a real connection
+		if s != nil {
+			s.point(&plainOp{fmt.Sprintf("Conn%d.Read (deadline expired)", c.ID)})
+		}
+		c.log("read", 0, "i/o timeout (deadline already expired)", c.deadline, armed)
+		return 0, timeoutErr{}
+	}
 	if s != nil {
-		if len(c.queue) == 0 && !c.closed {
+		if c.qlen == 0 && !c.closed {
 			c.parked = true
 			c.log("readpark", 0, "", c.deadline, armed)
 		}
 		s.point(&readOp{c})
 		c.parked = false
-	} else if len(c.queue) == 0 && !c.closed {
+	} else if c.qlen == 0 && !c.closed {
 		panic("vsyncrt: Conn.Read would block outside a controlled execution")
 	}
-	c.armed = false
 	raceAcquire(unsafe.Pointer(&c.tokIn))
 	if c.closed {
 		c.log("read", 0, "closed", time.Time{}, armed)
 		return 0, net.ErrClosed
 	}
-	it := c.queue[0]
+	it := c.qarr[c.qhead]
 	if it.err != nil {
-		c.queue = c.queue[1:]
+		c.qpop()
 		c.log("read", 0, it.err.Error(), time.Time{}, armed)
 		return 0, it.err
 	}
-	n := copy(p, it.data)
+	n := len(it.data)
+	if n > len(p) {
+		n = len(p)
+	}
+	for i := 0; i < n; i++ {
+		p[i] = it.data[i]
+	}
 	if n < len(it.data) {
-		c.queue[0].data = it.data[n:]
+		c.qarr[c.qhead].data = it.data[n:]
 	} else {
-		c.queue = c.queue[1:]
+		c.qpop()
 	}
 	c.log("read", n, "", time.Time{}, armed)
 	return n, nil
+}
+
+//go:norace
+func (c *Conn) qpop() {
+	c.qarr[c.qhead] = connItem{}
+	c.qhead = (c.qhead + 1) % len(c.qarr)
+	c.qlen--
+}
+
+//go:norace
+func (c *Conn) qpush(it connItem) {
+	if c.qlen == len(c.qarr) {
+		panic("vsyncrt: connection queue full")
+	}
+	c.qarr[(c.qhead+c.qlen)%len(c.qarr)] = it
+	c.qlen++
 }
 
 // Write ...
@@ -149,7 +196,18 @@ func (c *Conn) Write(p []byte) (int, error) {
 	if c.closed {
 		return 0, net.ErrClosed
 	}
-	c.out = append(c.out, p...)
+	if len(c.out)+len(p) > cap(c.out) {
+		bigger := make([]byte, len(c.out), 2*(len(c.out)+len(p)))
+		for i := range c.out {
+			bigger[i] = c.out[i]
+		}
+		c.out = bigger
+	}
+	base := len(c.out)
+	c.out = c.out[:base+len(p)]
+	for i := range p {
+		c.out[base+i] = p[i]
+	}
 	raceReleaseMerge(unsafe.Pointer(&c.tokOut))
 	c.log("write", len(p), "", time.Time{}, false)
 	return len(p), nil
@@ -190,7 +248,7 @@ func (c *Conn) RemoteAddr() net.Addr { return c.remote }
 //
 //go:norace
 func (c *Conn) SetDeadline(t time.Time) error {
-	c.deadline, c.armed = t, true
+	c.deadline, c.armed = t, !t.IsZero() && t.After(Now())
 	c.log("deadline", 0, "", t, false)
 	return nil
 }
@@ -199,7 +257,7 @@ func (c *Conn) SetDeadline(t time.Time) error {
 //
 //go:norace
 func (c *Conn) SetReadDeadline(t time.Time) error {
-	c.deadline, c.armed = t, true
+	c.deadline, c.armed = t, !t.IsZero() && t.After(Now())
 	c.log("rdeadline", 0, "", t, false)
 	return nil
 }
@@ -222,7 +280,11 @@ func (c *Conn) Feed(b []byte) {
 	if s != nil {
 		s.point(&plainOp{fmt.Sprintf("client%d feeds %d bytes", c.ID, len(b))})
 	}
-	c.queue = append(c.queue, connItem{data: append([]byte{}, b...)})
+	cp := make([]byte, len(b))
+	for i := range b {
+		cp[i] = b[i]
+	}
+	c.qpush(connItem{data: cp})
 	raceReleaseMerge(unsafe.Pointer(&c.tokIn))
 }
 
@@ -245,7 +307,7 @@ func (c *Conn) feedErr(e error, what string) {
 	if s != nil {
 		s.point(&plainOp{fmt.Sprintf("client%d %s", c.ID, what)})
 	}
-	c.queue = append(c.queue, connItem{err: e})
+	c.qpush(connItem{err: e})
 	raceReleaseMerge(unsafe.Pointer(&c.tokIn))
 }
 
@@ -274,7 +336,7 @@ func (c *Conn) Await(n int) ([]byte, bool) {
 	}
 	raceAcquire(unsafe.Pointer(&c.tokOut))
 	b := c.out
-	c.out = nil
+	c.out = make([]byte, 0, 4096)
 	return b, c.closed
 }
 
@@ -291,14 +353,16 @@ func (c *Conn) Parked() bool { return c.parked }
 // Pending reports undelivered items.
 //
 //go:norace
-func (c *Conn) Pending() int { return len(c.queue) }
+func (c *Conn) Pending() int { return c.qlen }
 
 // ---- listener ----
 
 // Listener is a scripted tacquito.DeadlineListener under the scheduler.
 type Listener struct {
 	W        *World
+	carr     [16]net.Conn
 	conns    []net.Conn
+	earr     [32]error
 	errs     []error
 	closed   bool
 	Accepted int
@@ -310,7 +374,11 @@ type Listener struct {
 // NewListener ...
 //
 //go:norace
-func (w *World) NewListener() *Listener { return &Listener{W: w} }
+func (w *World) NewListener() *Listener {
+	l := &Listener{W: w}
+	l.conns, l.errs = l.carr[:0], l.earr[:0]
+	return l
+}
 
 type acceptOp struct{ l *Listener }
 
